@@ -279,7 +279,7 @@ func checkNoOtherPanics(c *core.Ctx, fn *ssa.Function, allowedCalls []*ssa.Call)
 	if bad == 0 {
 		c.OK("C20.R4", key+"/panic-site", fn.Pos(), sprintf("%d panic-capable constructs, all discharged", len(sites)))
 	}
-	if fn.Name() != "newError" {
+	if fnName(fn) != "newError" {
 		checkNilSafeReceiver(c, "C20.R4", fn)
 	}
 }
